@@ -158,6 +158,7 @@ func (pxy *BaseProxy) GetWorkConnFromPool(src, dst net.Addr) (workConn net.Conn,
 			DstPort:   uint16(dstPort),
 			Error:     "",
 		})
+		verifhook.At("pxy.startworkconn", "proxy", pxy.GetName(), "w", workConn.RemoteAddr().String(), "src_port", int(srcPort), "err", err, "try", i)
 		if err != nil {
 			xl.Warnf("failed to send message to work connection from pool: %v, times: %d", err, i)
 			workConn.Close()
@@ -213,6 +214,8 @@ func (pxy *BaseProxy) startCommonTCPListenersHandler() {
 func (pxy *BaseProxy) handleUserTCPConnection(userConn net.Conn) {
 	xl := xlog.FromContextSafe(pxy.Context())
 	defer userConn.Close()
+	verifhook.At("pxy.userconn", "proxy", pxy.GetName(), "u", userConn.RemoteAddr().String(), "run_id", pxy.userInfo.RunID)
+	defer verifhook.At("pxy.userconn.end", "proxy", pxy.GetName(), "u", userConn.RemoteAddr().String())
 
 	serverCfg := pxy.serverCfg
 	cfg := pxy.configurer.GetBaseConfig()
